@@ -157,7 +157,7 @@ E3_CONFIGS = {
     "B": ("target_b", True, []),
     "C": ("target_c", True, ["hooks"]),
 }
-E3_DEFS = dict(quick=48, thorough=256)
+E3_DEFS = dict(quick=64, thorough=256)
 
 
 def gen_dir(tier, sd=None):
